@@ -267,4 +267,18 @@ theorem getdel_spec (c : Ctx) (db : Db) (k b : Bytes) (ent : Entry)
   unfold cmdGetDel
   cases ent; simp_all
 
+/-! ### the index arithmetic of GETRANGE / SUBSTR as the Go source has it now (`GoArith.lean`, regenerated) -/
+
+/-- The statements of `fnGetRange` between `n := len(str)` and the slice expression, translated from the Go
+    source on this run: for every pair of int64 offsets and every string length they compute the model's
+    `getRangeBounds` — the function `getrange_window`, `getrange_identity` and `getrange_negative` are about. -/
+theorem getrange_clamp_as_coded (s e n : BitVec 64) (hn : 0 ≤ n.toInt) :
+    ((Go.getRangeClamp s e n).1.toInt, (Go.getRangeClamp s e n).2.toInt) = getRangeBounds n.toInt s.toInt e.toInt :=
+  go_getRangeClamp s e n hn
+
+/-- … in particular the largest offset there is: `GETRANGE k 0 9223372036854775807` on an 11-byte string reads
+    positions 0 … 10 -/
+theorem getrange_clamp_maxint :
+    Go.getRangeClamp 0#64 (BitVec.ofInt 64 9223372036854775807) 11#64 = (0#64, 10#64) := by decide
+
 end RedisEmu
